@@ -610,6 +610,71 @@ pub fn framing_extremes(prop: &str, rep: &mut Report) {
     rep.sample(json!({"origin": "framing_extremes", "what": "chunks declaring 0x10000 / 0x1FFFF / 0x100000 more or less than they produce (carries of the 16+5-bit size field)"}));
 }
 
+/// C09 across a dictionary reset at real sizes: a compressed chunk that continues from the previous chunk's
+/// data is built without dictionary reset (so that every copy is legal and the coding is known), then its
+/// control byte is switched to the dictionary-resetting class (same header layout, same state reset): every copy
+/// reaching before the chunk is now out of window.  Chunk sizes on both sides of 64 KiB put the reset request
+/// on control bytes 0xE0 and 0xE1..0xFF.
+pub fn dict_reset_probes(prop: &str, rep: &mut Report) {
+    let p = Props { lc: 3, lp: 0, pb: 2 };
+    for (si, &size) in [4usize, 300, 65536, 65537, 70000, 200000, 1 << 21].iter().enumerate() {
+        for bad_first in [true, false] {
+            let mut st = L2State::default();
+            let mut stream: Vec<u8> = vec![];
+            let a: Vec<u8> = (0..200u32).map(|i| (i * 7 % 251) as u8).collect();
+            stream.extend_from_slice(&st.push(&Chunk::Raw { reset: true, data: a }).bytes);
+            let mut prog: Vec<Sym> = vec![];
+            let mut left = size;
+            if bad_first {
+                prog.push(Sym::Match { d: 37, n: 3 });
+                left -= 3;
+            } else {
+                left -= 4;
+            }
+            if left > 0 {
+                prog.push(Sym::Lit { b: 0x5a });
+                left -= 1;
+            }
+            let mut first_fill = true;
+            while left > 0 {
+                let k = if left >= 273 + 2 { 273 } else if left >= 2 { left } else { 0 };
+                if k == 0 {
+                    prog.push(Sym::Lit { b: 0x5a });
+                    left -= 1;
+                } else {
+                    prog.push(if first_fill { Sym::Match { d: 1, n: k as u32 } } else { Sym::Rep { r: 0, n: k as u32 } });
+                    first_fill = false;
+                    left -= k;
+                }
+            }
+            if !bad_first {
+                // reaches 10 bytes before the start of this chunk
+                prog.push(Sym::Match { d: (size - 4) as u64 + 10, n: 4 });
+            }
+            let at = stream.len();
+            let ch = st.push(&Chunk::Lzma { class: 2, props: Some(p), prog });
+            if ch.invalid_at.is_some() || ch.unpacked != size || ch.packed > (1 << 16) {
+                rep.tool_error(format!("dict_reset_probes: chunk of {} bytes could not be built", size));
+                continue;
+            }
+            stream.extend_from_slice(&ch.bytes);
+            stream.push(0);
+            // sanity: as built (no dictionary reset) the stream is well-formed
+            if expect_lzma2(&stream).v != Exp::Ok {
+                rep.tool_error("dict_reset_probes: the unpatched stream is not well-formed".into());
+                continue;
+            }
+            stream[at] |= 0x20; // class 2 -> class 3
+            for api_name in ["lzma2", "raw", "xz"] {
+                let c = L2Case { data_hex: hex(&stream), api: api_name.into(), spec_res: None, spec_why: None, spec_out: None,
+                                 origin: format!("dict-reset-probe:size{}:{}:{}", size, if bad_first { "first-symbol" } else { "last-symbol" }, si) };
+                check_case(&c, prop, rep);
+            }
+        }
+    }
+    rep.sample(json!({"origin": "dict_reset_probes", "what": "copy reaching before a dictionary-resetting compressed chunk (control 0xE0 and 0xE1..0xFF), first and last symbol of the chunk", "chunk_sizes": [4, 300, 65536, 65537, 70000, 200000, 2097152]}));
+}
+
 /// Random program for one chunk given the carried state (history length, st, rep).
 fn chunk_program(rng: &mut StdRng, st: &L2State, class: u8, nsyms: usize, hist_len: usize, _p: Props) -> Vec<Sym> {
     // simulate validity on a light-weight copy: only lengths / rep distances matter
